@@ -1,3 +1,4 @@
+import SemantivaModel.Driver.C01
 import SemantivaModel.Driver.C08
 import SemantivaModel.Driver.C11
 import SemantivaModel.Driver.C12
@@ -10,6 +11,7 @@ import SemantivaModel.Driver.C14
 open Lean SemantivaModel.Driver
 
 structure DState where
+  c01 : C01.State := {}
   c11 : C11.State := {}
   c12 : C12.State := {}
   c13 : C13.State := {}
@@ -29,6 +31,9 @@ def dispatch (st : DState) (j : Json) : Except String (DState × Json) := do
     pure (st, ← C08.handle m j)
   else if m.startsWith "c14." then
     pure (st, ← C14.handle m j)
+  else if m.startsWith "c01." then
+    let (s, r) ← C01.handle st.c01 m j
+    pure ({ st with c01 := s }, r)
   else throw s!"unknown model op {m}"
 
 partial def loop (h : IO.FS.Stream) (out : IO.FS.Stream) (st : DState) : IO Unit := do
